@@ -1,7 +1,9 @@
 package c15
 
 import (
+	"bytes"
 	"fmt"
+	"github.com/ProtonMail/gluon/imap"
 	"regexp"
 	"sort"
 	"strconv"
@@ -337,7 +339,33 @@ func (w *world) build() {
 	}
 
 	for i, k := 0, intn(t, "elsewhere-n", 1, 4); i < k; i++ {
-		switch intn(t, "elsewhere", 0, 3) {
+		switch intn(t, "elsewhere", 0, 4) {
+		case 4:
+			// the connector deletes a message (it is marked for deletion in the index; the view keeps it until the
+			// EXPUNGE has been sent, and has to go on answering for it)
+			if uids := present(); len(uids) > 0 {
+				g := w.byUID[pick(t, "else-conn-del-uid", uids)]
+
+				var id imap.MessageID
+
+				w.u.Conn.Lock(func() {
+					for rid, rm := range w.u.Conn.Messages {
+						if g != nil && bytes.Equal(rm.Literal, g.Lit) {
+							id = rid
+						}
+					}
+
+					delete(w.u.Conn.Messages, id)
+				})
+
+				if id != "" {
+					if d := w.b.DeliverNow(w.u, imap.NewMessagesDeleted(id)); d[0].Err != nil {
+						inconclusive(t, w.b, "MessageDeleted: %v", d[0].Err)
+					}
+
+					w.labels["deleted-by-connector"] = true
+				}
+			}
 		case 0, 1:
 			if w.expungeSome("else-del", present(), 1, 3) > 0 {
 				w.labels["expunged-elsewhere"] = true
